@@ -3,7 +3,7 @@ import json
 from common import *
 import impl, l0
 
-THMS = ["C02_set_operations_group_left", "C02_parenthesised_operand_stays_grouped", "C02_tail_wraps_whole_chain"]
+THMS = ["C02_set_operations_group_left", "C02_parenthesised_operand_stays_grouped", "C02_tail_wraps_whole_chain", "C02_from_sources_in_order"]
 HEADER = ("From Coq Require Import List ZArith String Bool.\nFrom MoSql Require Import Base.Json Model.Clause.\nImport ListNotations.\nOpen Scope string_scope. Open Scope list_scope.\n")
 JOINS = ["join", "inner join", "left join", "right join", "full join", "cross join", "left outer join", "right outer join", "full outer join"]
 SETOPS = [("union", "union"), ("union all", "union_all"), ("intersect", "intersect"), ("except", "except"), ("minus", "minus")]
@@ -279,13 +279,44 @@ def run(ctx):
                 ctx.violation("input", dict(sql=sql, returned=short(got, 800) if st == "ok" else [st, str(got)], requires=short(want, 800)))
             checks.append("jv_eqb (to_union %s [(%s, %s)]) %s" % (cjson(inner), cstr(op2), cjson({"select": {"value": "c"}, "from": "v"}), cjson(got if st == "ok" else want)))
             meta.append(sql)
+    # join chains: the model's nest-and-flatten of FROM (Model/Clause.v from_list) against the implementation, runs of ON-less joins of every length up to 7
+    nset = len(checks)
+    for k in range(1, 8):
+        for variant in range(3):
+            names = ["t%d" % i for i in range(k + 1)]
+            kinds = [rnd.choice(["cross join", "natural join"]) for _ in range(k)]
+            on_at = set() if variant == 0 else {rnd.randrange(k)} if variant == 1 else {i for i in range(k) if rnd.random() < 0.5}
+            sql, joins = "select * from " + names[0], []
+            for i in range(k):
+                if i in on_at:
+                    sql += " left join %s on c%d = %d" % (names[i + 1], i, i)
+                    joins.append(({"left join": names[i + 1], "on": {"eq": ["c%d" % i, i]}}, True))
+                else:
+                    sql += " %s %s" % (kinds[i], names[i + 1])
+                    joins.append(({kinds[i]: names[i + 1]}, False))
+            runs, cur = [], []
+            for j, has_on in joins:          # a join with ON / USING ends the run it stands in
+                cur.append(j)
+                if has_on:
+                    runs.append(cur)
+                    cur = []
+            if cur:
+                runs.append(cur)
+            st, got = impl.outcome(impl.M.parse, sql)
+            ctx.count(1, sql)
+            want = [names[0]] + [j for j, _ in joins]
+            if st != "ok" or canon(got.get("from")) != canon(want):
+                ctx.violation("input", dict(sql=sql, returned=short(got, 800) if st == "ok" else [st, str(got)], requires="from = " + short(want, 800)))
+                continue
+            checks.append("jv_eqb (JList (from_list %s [%s])) %s" % (cjson(names[0]), "; ".join("(%s, [%s])" % (cjson(r[0]), "; ".join(cjson(x) for x in r[1:])) for r in runs), cjson(got["from"])))
+            meta.append(sql)
     bad, log = l0.run_checks(ctx, "c02", HEADER, checks, shard=300)
     if bad is None:
         ctx.obligation("correspondence evaluated", False, log[-2000:])
         ctx.violation("obligation", dict(what="correspondence check could not be evaluated by coqc", log=log[-2000:]), no_input=True)
         bad = []
     ctx.traces = len(checks)
-    ctx.obligation("correspondence: the fold model of to_union_call (Model/Clause.v) = the implementation's grouping on %d set-operation chains" % len(checks), not bad)
+    ctx.obligation("correspondence: the fold model of to_union_call and the join-chain model of to_join_call (Model/Clause.v) = the implementation on %d set-operation chains and %d FROM clauses" % (nset, len(checks) - nset), not bad)
     for i in bad[:5]:
         ctx.violation("input", dict(sql=meta[i], broken="correspondence Model/Clause.v (to_union) vs the implementation's set-operation folding"), no_input=True)
     ctx.sample(dict(sql=sql))
